@@ -163,7 +163,11 @@ func (e *Engine) VerifyFunctionAs(fn *ssa.Function, c *Contract, panics bool, pr
 	r.env = env
 	r.execBody(st)
 	if len(r.rets) == 0 {
-		// function never returns normally (all paths panic or loop forever)
+		// function never returns normally (all paths panic or loop forever): its postconditions would hold vacuously,
+		// so this is reported as an obligation of its own
+		if c != nil {
+			r.oblige(st, "returns", "", tb.False(), fn.Pos(), "the function returns normally on some path (every path panics or diverges)", nil)
+		}
 		return res
 	}
 	retv, fin := r.mergeReturns()
